@@ -24,6 +24,24 @@ EVID = os.path.join(ROOT, "evidence")
 REPLAYS = os.path.join(ROOT, "replays")
 KNOWN = os.path.join(ROOT, "known_findings.json")
 
+REPO = "/repo"
+# Development aid (never used by the registered commands): VERIF_ALT_REPO=<dir> runs the same
+# checks against another checkout (a scratch worktree carrying a seeded change) from a private
+# copy of the harness, with work files, evidence and replays kept apart, so /repo stays untouched.
+ALT = os.environ.get("VERIF_ALT_REPO")
+if ALT:
+    ALT = os.path.abspath(ALT)
+    REPO = ALT
+    WORK = os.path.join(ROOT, ".work", "alt-" + hashlib.sha1(ALT.encode()).hexdigest()[:8])
+    alt_h = os.path.join(WORK, "harness")
+    shutil.rmtree(alt_h, ignore_errors=True)
+    shutil.copytree(HARNESS, alt_h, ignore=shutil.ignore_patterns("testdata", "*.test"))
+    gm = open(os.path.join(alt_h, "go.mod")).read().replace("=> /repo", "=> " + ALT)
+    open(os.path.join(alt_h, "go.mod"), "w").write(gm)
+    HARNESS = alt_h
+    EVID = os.path.join(WORK, "evidence")
+    REPLAYS = os.path.join(WORK, "replays")
+
 ENV = dict(os.environ)
 ENV.update({
     "GOFLAGS": "-mod=mod", "GOPROXY": "off", "GOSUMDB": "off", "GOTOOLCHAIN": "local",
@@ -45,7 +63,7 @@ def derive_seed(base, *parts):
 
 
 def ensure_gosum():
-    src, dst = "/repo/go.sum", os.path.join(HARNESS, "go.sum")
+    src, dst = os.path.join(REPO, "go.sum"), os.path.join(HARNESS, "go.sum")
     try:
         if not os.path.exists(dst):
             shutil.copy(src, dst)
